@@ -296,6 +296,27 @@ def run_exact(chk, c, items, meta):
             ev = propagate_dm(prop, qr.ReducedDensityMatrix(data=rho0.copy()), L, nref, c.get('nrefkw', False))
             out = np.array(ev.data)
             pk, Rl, cutoff = "PTdTensor", q5(tens), ntens
+            # the same relaxation held as operator families per time index (as_operators=True): it must walk through the stored values
+            # exactly as the tensor form does (stride, refinement, cut-off), i.e. give the states compared with the model below
+            RTo = TDRedfieldRelaxationTensor.__new__(TDRedfieldRelaxationTensor)
+            RTo._initialize_basis()
+            RTo.dim, RTo.as_operators, RTo._has_cutoff_time, RTo.has_Iterm = n, True, RT._has_cutoff_time, False
+            if RT._has_cutoff_time:
+                RTo.cutoff_time = RT.cutoff_time
+            RTo.Nt = ntens
+            RTo.SystemBathInteraction = types.SimpleNamespace(TimeAxis=qr.TimeAxis(0.0, ntens, sysstep))
+            Lts = np.array([Lm * (tt % 3) + (tt // 3) * np.conj(Lm) for tt in range(ntens)])
+            RTo.Km = K.copy()
+            RTo.Lm = Lts.copy()
+            RTo.Ld = np.conj(np.transpose(Lts, (0, 1, 3, 2))).copy()
+            RTo._is_initialized = True
+            propo = qr.ReducedDensityMatrixPropagator(ta, qr.Hamiltonian(data=H.copy()), RTensor=RTo)
+            evo = propagate_dm(propo, qr.ReducedDensityMatrix(data=rho0.copy()), L, nref, c.get('nrefkw', False))
+            outo = np.array(evo.data)
+            if np.max(np.abs(outo - out)) > 1e-10 * max(1.0, float(np.max(np.abs(out)))):
+                chk.violation("td:forms_differ", "time-dependent relaxation held as operator families and as tensors gives different propagated states (%g): "
+                              "propagation step of %d bath steps, Nref=%d, %s (case %s)" % (float(np.max(np.abs(outo - out))), stride * nref, nref,
+                              "cut-off at index %s" % cutidx if cutidx is not None else "no cut-off", json.dumps(c)), "monitor", c)
             chk.count("exact:td %s" % ("with cut-off" if cutidx is not None else "no cut-off"))
     # monitors on the implementation's stored states: the property's exact clauses
     tr0 = np.trace(out[0])
